@@ -66,12 +66,7 @@ Proof.
     destruct Hcr as [-> | ->]; reflexivity. }
   rewrite app_assoc, (chomp_lf_spec _ nl Hbody Hnl).
   unfold lcomment. cbn [app]. rewrite (find_comment_first (rest ++ cr) before [] false Hn He Hc). cbn [rev app].
-  cbv zeta. rewrite <- app_assoc.
-  change (c_slash :: c_slash :: rest ++ cr) with (c_slash :: c_slash :: (rest ++ cr)).
-  unfold replace_all. cbn [app]. rewrite <- app_assoc.
-  change (before ++ c_slash :: c_slash :: rest ++ cr ++ nl) with (before ++ c_slash :: c_slash :: rest ++ (cr ++ nl)).
-  rewrite (app_assoc rest cr nl).
-  rewrite (replace_cmt_first_new (rest ++ cr) nl _ before Hn He Hnl). reflexivity.
+  cbv zeta. reflexivity.
 Qed.
 
 (* visible characters that are not a hash *)
